@@ -181,7 +181,6 @@ func (p *Processor) ChargingDataCreate(
 	}
 
 	ue.CULock.Lock()
-	ue.NotifyUri = chargingData.NotifyUri
 
 	consumerId := chargingData.NfConsumerIdentification.NFName
 	// the counter is incremented by OpenCDR under the context lock: read it under that lock as well
@@ -212,6 +211,8 @@ func (p *Processor) ChargingDataCreate(
 		return nil, "", problemDetails
 	}
 
+	// the request is accepted: only now does its notification URI replace the registered one
+	ue.NotifyUri = chargingData.NotifyUri
 	if !chargingData.OneTimeEvent {
 		// (a one-time event opens no session: its record is not reachable under any session reference,
 		// least of all the empty one)
